@@ -17,6 +17,7 @@ package redis
 import (
 	"errors"
 	"fmt"
+	"math"
 	"strconv"
 	"strings"
 	"time"
@@ -51,6 +52,9 @@ func nextFloatArgument(cmd string, name string, args Arguments) (float64, error)
 	score, err := strconv.ParseFloat(str, 64)
 	if err != nil {
 		return 0, newMissingArgumentError(cmd, name, err)
+	}
+	if math.IsNaN(score) {
+		return 0, newInvalidArgumentError(cmd, name, ErrNotFloat)
 	}
 	return score, nil
 }
@@ -274,6 +278,9 @@ func parseRangeScoreIndex(cmd string, name string, str string) (float64, bool, e
 	rng, err := strconv.ParseFloat(str[offset:], 64)
 	if err != nil {
 		return 0, false, newInvalidArgumentError(cmd, name, err)
+	}
+	if math.IsNaN(rng) {
+		return 0, false, newInvalidArgumentError(cmd, name, ErrNotFloat)
 	}
 	return rng, exclusive, nil
 }
